@@ -257,13 +257,17 @@ func HarnessC06a() {
 	// early stop / callback error at an arbitrary position
 	if len(recs) > 0 {
 		stopAt := verifChoose("stop", len(recs))
-		withErr := verifChoose("stoperr", 2) == 1
+		how := verifChoose("stoperr", 3) // 0: (false, nil)  1: (true, err)  2: (false, err)
+		withErr := how != 0
 		calls := 0
 		err := nw.DiffIter(vctx, old, func(added, removed bool, key, av, rv interface{}) (bool, error) {
 			calls++
 			if calls-1 == stopAt {
-				if withErr {
+				switch how {
+				case 1:
 					return true, errStop
+				case 2:
+					return false, errStop
 				}
 				return false, nil
 			}
